@@ -1,0 +1,48 @@
+//go:build verif
+
+// Contracts for contract-based deductive verification (govc, /verif).
+// This file contains comments only; it adds no code to the package.
+
+package chunkinfo
+
+//@ opaque github.com/gauss-project/aurorafs/pkg/boson.Address as Addr
+
+//@ # ---- assumed: the traversal service, address strings --------------------------------------------
+//@ extern func (github.com/gauss-project/aurorafs/pkg/traversal.Traverser).GetChunkHashes
+//@   assigns nothing
+//@ spec func addrOf(b Bytes) boson.Address
+//@ extern func github.com/gauss-project/aurorafs/pkg/boson.NewAddress
+//@   ensures result == addrOf(seq(b))
+//@   assigns nothing
+
+//@ # the data chunks of a file numbered in order of first appearance: an index table that is a
+//@ # bijection between the distinct chunk addresses and 0 .. n-1 (n = number of distinct chunks)
+//@ spec func indexOK(m map[string]pyramidCid) bool = m != nil && (forall k string :: present(m, k) ==> 0 <= m[k].sort && m[k].sort < len(m)) && (forall k1 string, k2 string :: present(m, k1) && present(m, k2) && k1 != k2 ==> m[k1].sort != m[k2].sort)
+
+//@ # the function computing the table (run through singleflight.Do)
+//@ func (*ChunkInfo).getPyramid$1
+//@   property C17
+//@   requires ci != nil && ci.traversal != nil
+//@   dyntype result0 *chunkinfo.pyramid
+//@   ensures index-is-a-bijection-onto-0..n-1: result1 == nil ==> dyn(result0) != nil && indexOK(dyn(result0).cids)
+//@   loop 1 invariant 0 - 1 <= rangeindex1 && rangeindex1 < len(pyramids) && sort == len(py) && indexOK(py)
+//@   loop 2 invariant 0 - 1 <= rangeindex1 && rangeindex1 < len(pyramids) && 0 - 1 <= rangeindex2 && rangeindex2 < len(p)
+//@   loop 2 invariant py != nil && sort == len(py)
+//@   loop 2 invariant forall k string :: present(py, k) ==> 0 <= py[k].sort && py[k].sort < len(py)
+//@   loop 2 invariant forall k1 string, k2 string :: present(py, k1) && present(py, k2) && k1 != k2 ==> py[k1].sort != py[k2].sort
+
+//@ # the table getPyramid answers for a root (computed by getPyramid$1 above and shared through
+//@ # singleflight.Do): a function of the root for the duration of one operation
+//@ spec func tableOf(root boson.Address) *pyramid
+//@ func (*ChunkInfo).getPyramid
+//@   trusted
+//@   ensures result1 == nil ==> result0 != nil && result0 == tableOf(rootCid) && indexOK(result0.cids)
+//@   assigns nothing
+//@ spec func strOf(a boson.Address) string = pure("(github.com/gauss-project/aurorafs/pkg/boson.Address).String", a)
+
+//@ # the position of a chunk in a file's bit vectors: only data chunks of the file have one
+//@ func (*ChunkInfo).getCidSort
+//@   property C17
+//@   requires ci != nil
+//@   ensures only-data-chunks-have-a-position: result >= 0 ==> present(tableOf(rootCid).cids, strOf(cid)) && result == tableOf(rootCid).cids[strOf(cid)].sort && result < len(tableOf(rootCid).cids)
+//@   ensures never-below-minus-one: result >= 0 - 1
